@@ -1261,6 +1261,95 @@ Proof.
   destruct (elem_info x) as [[[w r] a]|]; reflexivity.
 Qed.
 
+(* ---- the structure of the constructed peripheral, read off the trace *)
+Definition cls_of (o : pv) : string := match o with YObj c _ => c | _ => "" end.
+Definition fname (f : pv) : string := match f with YGlobal s => s | _ => "" end.
+(* an object shown as the call that made it: an instance of a translated class as <class>(arguments of its
+   super().__init__), anything else as <callee>(args, kwargs) *)
+Definition resolve (t : trace) (x : pv) : pv :=
+  match find_super_cls t x with
+  | Some (_, args) => YCon (cls_of x) args []
+  | None => match call_of t x with Some (f, args, kw) => YCon (fname f) args kw | None => x end
+  end.
+Definition member_show (t : trace) (v : pv) : pv :=
+  match v with
+  | YCon f [YCon g [x] []; n] [] => YCon f [YCon g [resolve t x] []; n] []
+  | YCon f [x] [] => YCon f [resolve t x] []
+  | _ => v
+  end.
+Fixpoint members_show (t : trace) (l : list (pv * pv)) : list (pv * pv) :=
+  match l with [] => [] | (k, v) :: l' => (k, member_show t v) :: members_show t l' end.
+Fixpoint adds_show (t : trace) (l : list (string * list pv * list (string * pv))) : list (string * pv * string * pv) :=
+  match l with
+  | [] => []
+  | (m, [nm; reg], _) :: l' =>
+      (m, nm, cls_of reg, match find_super_cls t reg with Some (_, [f]) => f | _ => YNone end) :: adds_show t l'
+  | (m, _, _) :: l' => (m, YNone, ""%string, YNone) :: adds_show t l'
+  end.
+Definition attr_cls (t : trace) (a : string) : string :=
+  match last_set t slf a with Some o => cls_of o | None => ""%string end.
+
+Record structure := {
+  s_builder : list (string * pv);                 (* csr.Builder(addr_width=, data_width=) *)
+  s_calls : list (string * pv * string * pv);     (* the calls on it: add(name, <class>(fields)) ..., as_memory_map() *)
+  s_attrs : list string;                          (* classes of self._mode, _input, _output, _setclr *)
+  s_members : list (pv * pv);                     (* wiring.Component.__init__(members) *)
+  s_map_linked : bool                             (* self.bus.memory_map is self._bridge.bus.memory_map *)
+}.
+
+Definition view_struct (t : trace) : comp structure :=
+  match last_set t slf "_bridge" with
+  | Some br =>
+      match call_of t br with
+      | Some (_, [mm], _) =>
+          match builder_of t mm, find_super_cls t slf with
+          | Some b, Some (_, [YDict members]) =>
+              Ret {| s_builder := kw_of t b;
+                     s_calls := adds_show t (calls_on t b);
+                     s_attrs := [attr_cls t "_mode"; attr_cls t "_input"; attr_cls t "_output"; attr_cls t "_setclr"];
+                     s_members := members_show t members;
+                     s_map_linked := match last_set t (YAttr slf "bus") "memory_map" with
+                                     | Some m => ref_eqb m (YAttr (YAttr br "bus") "memory_map")
+                                     | None => false
+                                     end |}
+          | _, _ => Raise OtherError
+          end
+      | _ => Raise OtherError
+      end
+  | None => Raise OtherError
+  end.
+
+(* what Model/Gpio.v says is built (its header and reg_specs): pin_count fields per register - Mode: action.RW
+   over the 2-bit PinMode enumeration; Input: action.R, 1 bit; Output: its own _FieldAction; SetClr: {set, clr},
+   each action.W, 1 bit - added as "Mode", "Input", "Output", "SetClr" in this order, then as_memory_map() *)
+Definition u1 : pv := YCon "unsigned" [YInt 1] [].
+Definition pin_mode : pv :=
+  YCon "class" [YStr "PinMode"; YTuple [YGlobal "enum.Enum"];
+                YDict [(YStr "INPUT_ONLY", YInt 0); (YStr "PUSH_PULL", YInt 1); (YStr "OPEN_DRAIN", YInt 2);
+                       (YStr "ALTERNATE", YInt 3)]] [("shape"%string, YCon "unsigned" [YInt 2] [])].
+Definition out_action : pv :=
+  YCon "class" [YStr "Peripheral.Output._FieldAction"; YTuple [YGlobal "csr.FieldAction"]; YDict []] [].
+Definition pins_of (x : pv) (n : Z) : pv := YDict [(YStr "pin", YList (repeat x (Z.to_nat n)))].
+Definition expected_struct (n a d : Z) : structure :=
+  {| s_builder := [("addr_width", YInt a); ("data_width", YInt d)]%string;
+     s_calls :=
+       [("add", YStr "Mode", "Peripheral.Mode", pins_of (YCon "csr.Field" [YGlobal "csr.action.RW"; pin_mode] []) n);
+        ("add", YStr "Input", "Peripheral.Input", pins_of (YCon "csr.Field" [YGlobal "csr.action.R"; u1] []) n);
+        ("add", YStr "Output", "Peripheral.Output", pins_of (YCon "csr.Field" [out_action] []) n);
+        ("add", YStr "SetClr", "Peripheral.SetClr",
+         pins_of (YDict [(YStr "set", YCon "csr.Field" [YGlobal "csr.action.W"; u1] []);
+                         (YStr "clr", YCon "csr.Field" [YGlobal "csr.action.W"; u1] [])]) n);
+        ("as_memory_map", YNone, "", YNone)]%string;
+     s_attrs := ["Peripheral.Mode"; "Peripheral.Input"; "Peripheral.Output"; "Peripheral.SetClr"]%string;
+     s_members :=
+       [(YStr "bus", YCon "In" [YCon "csr.Signature" [] [("addr_width", YInt a); ("data_width", YInt d)]%string] []);
+        (YStr "pins",
+         YCon "array" [YCon "Out" [YCon "PinSignature"
+                                     [YDict [(YStr "i", YCon "In" [u1] []); (YStr "o", YCon "Out" [u1] []);
+                                             (YStr "oe", YCon "Out" [u1] [])]] []] []; YInt n] []);
+        (YStr "alt_mode", YCon "Out" [YCon "unsigned" [YInt n] []] [])];
+     s_map_linked := true |}.
+
 Ltac norm := lazy beta iota zeta delta [
   cbind run_comp fcall fset fnew tlen w_call w_get w_set w_isinstance
   ref_eqb kw_get last_set call_of calls_of num mknum py_is_none py_is_int py_is_str py_is_bool py_is_range py_is_dict
@@ -1271,6 +1360,7 @@ Ltac norm := lazy beta iota zeta delta [
   is_glob meth_recv super_init obj_is get_plain kw_or_none calls_on kw_of not_int_or getZ getB port_signature
   cls_access base_is find_super_cls specs_of builder_specs spec_builder place_of spec_as_memory_map builder_of
   mux_of spec_bridge spec_csr_signature gp_call gpW inj slf tr0 run view
+  cls_of fname resolve member_show members_show adds_show attr_cls view_struct
   gen_gpio_Peripheral_init gen_gpio_Peripheral_class gen_gpio_Peripheral_init_default_input_stages
   gen_gpio_Peripheral_Mode_init gen_gpio_Peripheral_Mode_class gen_gpio_Peripheral_Input_init
   gen_gpio_Peripheral_Input_class gen_gpio_Peripheral_Output_init gen_gpio_Peripheral_Output_class
@@ -1313,5 +1403,21 @@ Proof.
     [destruct (Mux.mk_cfg d regs None) as [mc|] eqn:M; norm2 |]; split_all; leaf.
 Qed.
 Print Assumptions tie_gpio_ctor.
+
+(* ... and an accepted peripheral has exactly the structure the model describes *)
+Theorem tie_gpio_structure : forall n a d st,
+  let p := {| G.p_pins := VInt n; G.p_aw := VInt a; G.p_dw := VInt d; G.p_stages := VInt st |} in
+  run_comp (let* '(_, t) := run p in view_struct t)
+  = match G.ctor p with Ok _ => Ok (expected_struct n a d) | Err e => Err e end.
+Proof.
+  intros n a d st p. subst p. norm.
+  destruct (0 <? n) eqn:Hn; [|reflexivity].
+  registers n Hn. norm2.
+  replace (Z.to_nat (range_len 0 n 1)) with (Z.to_nat n) by (rewrite range_len_simple; lia).
+  match goal with |- context [@Ok structure ?x] => set (L := x) end.
+  destruct (G.place a d 0 _) as [regs|e] eqn:P; norm2;
+    [destruct (Mux.mk_cfg d regs None) as [mc|] eqn:M; norm2 |]; split_all; first [ leaf | subst L; reflexivity ].
+Qed.
+Print Assumptions tie_gpio_structure.
 
 End GpioTie.
